@@ -42,7 +42,8 @@ WireOK(r) ==
       [] r.m = "CLOSE" -> Ev.rtype \in {21, 23}
       [] OTHER -> IF IsTls13 /\ Protected(r.m) THEN Ev.rtype = 23
                   ELSE Ev.rtype = 22 /\ (~Protected(r.m) => Ev.hs = HsType(r.m))
-FaultOf(ev) == IF ev.fault = "inject" THEN (IF ev.kind = 0 THEN "inject0" ELSE IF ev.kind = 2 THEN "injectCcs" ELSE "injectJunk") ELSE ev.fault
+(* a replayed old record is, for the receiver, a record that does not carry the expected sequence number: the contract treats it like junk *)
+FaultOf(ev) == IF ev.fault = "replay" THEN "injectJunk" ELSE IF ev.fault = "inject" THEN (IF ev.kind = 0 THEN "inject0" ELSE IF ev.kind = 2 THEN "injectCcs" ELSE "injectJunk") ELSE ev.fault
 
 D2 == [c2s |-> 0, s2c |-> 0]
 TP == {257, 771, 772}
